@@ -1,7 +1,7 @@
 /* C06: write/read round trip (real writers and readers of lib/src/msa_io.c through the in-memory tape).
  * concrete: VK_FMT (1 fasta, 2 msf, 3 clustal), VK_NS rows, VK_ALN columns, name lengths VK_NL1..3
  * symbolic: every row character (letter of either case or '-'), name characters (with -DVK_SYM_NAMES),
- *           molecule kind.
+ *           molecule kind (concrete VK_KIND for MSF).
  * assert: the tape is recognised as its format; reading gives the same number of rows in the same order with the
  *         same names, seq = row without gaps, gaps[] = run lengths of '-' (same gaps in the same places).
  */
@@ -53,7 +53,13 @@ VK_MAIN()
         int vb = 0;
         struct msa *m = vk_mk_msa(VK_NS, VK_ALN + 1);
         m->numseq = VK_NS; m->aligned = ALN_STATUS_FINAL; m->alnlen = VK_ALN;
+#ifdef VK_KIND
+        /* MSF: the molecule kind decides header TEXT ("!!AA"/"!!NA", Type: P/N); a symbolic kind makes the header lines the
+         * reader searches symbolic and with them the number of header lines - both kinds are separate instances instead */
+        int biotype = VK_KIND ? ALN_BIOTYPE_PROTEIN : ALN_BIOTYPE_DNA; vb++;
+#else
         int biotype = vin.b[vb++] ? ALN_BIOTYPE_PROTEIN : ALN_BIOTYPE_DNA;
+#endif
         m->biotype = biotype;
         m->L = biotype == ALN_BIOTYPE_PROTEIN ? ALPHA_ambigiousPROTEIN : ALPHA_defDNA;
         int nres[VK_NS];
@@ -75,6 +81,8 @@ VK_MAIN()
                 for (int k = 0; k < 3; k++) if (k < NL[s]) {
 #ifdef VK_SYM_NAMES
                         unsigned char ch = vin.b[vb++]; VK_ASSUME(name_char_ok(ch));
+#elif defined(VK_PREFIX_NAMES)
+                        unsigned char ch = (unsigned char)("ABC"[k]);   /* every shorter name is a proper prefix of every longer one */
 #else
                         unsigned char ch = (unsigned char)("_aQ.7||-Z"[3 * s + k]);
 #endif
